@@ -287,10 +287,12 @@ pub fn domain(d: &Decl, tier: Tier) -> Vec<Val> {
     let b = decl_bounds(d);
     match d.inner {
         Inner::Int(t) => int_domain(t, d),
+        Inner::GenT => int_domain(IntTy::I32, d),
         Inner::F32 => f32_structured(&b),
         Inner::F64 => f64_structured(&b, tier == Tier::Thorough),
         Inner::Str | Inner::Cow => string_domain(tier, d),
         Inner::VecI64 | Inner::GenVec => vec_domain(),
         Inner::Point => point_domain(),
+        Inner::FBox => f32_structured(&b).into_iter().step_by(7).chain([Val::f32(f32::NAN), Val::f32(-f32::NAN), Val::f32(0.0), Val::f32(-0.0), Val::f32(f32::INFINITY), Val::f32(1.5), Val::f32(2000.0)]).collect(),
     }
 }
